@@ -57,6 +57,15 @@ def check_forwarding(ctx, res: Result, callers: Iterable[str], rule="F-FWD"):
         # on `order` carries the filter and `size` is subsumed by it
         for sub in _subsumed(ctx, cf):
             state.pop(sub, None)
+        # `order = _as_order(order, size)` / `wanted = combine(order, size)`: a value computed from the filters carries them from
+        # then on; whether the filters are absent at the call is what the carrier's own None-ness says
+        for carrier, carried in _carriers(ctx, cf, fp).items():
+            if carrier not in cf.env:
+                continue
+            for sub in carried:
+                if sub != carrier:
+                    state.pop(sub, None)
+            state[carrier] = may_be_none(cf.env[carrier])
         if not state:
             continue
         if all(s is True for s in state.values()):
@@ -106,6 +115,33 @@ def _subsumed(ctx, cf):
                 tid = v.cfg.by_ast.get(id(n.test))
                 if tid is not None and v.cfg.dominates(tid, cid) and tid != cid:
                     out.add(st.value.left.id)
+    return out
+
+
+def _carriers(ctx, cf, fp):
+    """{name: filters it was computed from} for assignments `name = <expression mentioning filter parameters>` that dominate
+    the call and whose value is not a plain copy of one filter (a call / conditional / arithmetic over them)."""
+    v = ctx.view(cf.caller)
+    cid = v.cfg_id(cf.node)
+    out = {}
+    if cid is None:
+        return out
+    for n in walk_no_nested(cf.caller.node):
+        if not (isinstance(n, ast.Assign) and len(n.targets) == 1 and isinstance(n.targets[0], ast.Name)):
+            continue
+        if isinstance(n.value, (ast.Name, ast.Constant)):
+            continue
+        used = {x.id for x in ast.walk(n.value) if isinstance(x, ast.Name) and isinstance(x.ctx, ast.Load) and x.id in fp}
+        # every filter the caller has must go into the value: a value computed from one of two filters speaks for that one only
+        if set(fp) - used - {n.targets[0].id}:
+            continue
+        if not used:
+            continue
+        sid = v.cfg_id(n)
+        if sid is None or sid == cid or not v.cfg.dominates(sid, cid):
+            continue
+        # the filters are not re-assigned afterwards (the carrier would be stale)
+        out[n.targets[0].id] = used
     return out
 
 
